@@ -29,7 +29,7 @@ ASSUMPTIONS = [
     "a notification may also be delivered when nothing changed; what is judged is that one IS delivered (to every table member) after each accepted change",
     "bare moves change the cell only in Isobaric / Isotension (the drivers whose state includes the cell and which can revert it) and the atom count changes only in GrandCanonical (through the shipped exchange move next to the bare move)",
 ]
-REQUIRED = {"bare_move_calls": 1500, "bare_criteria_calls": 500, "falsy_results": 300, "truthy_results": 300, "atom_count_changes": 100, "cell_changes": 100, "roundtrips": 12, "attribute_accesses_logged": 2000}
+REQUIRED = {"bare_move_calls": 1500, "bare_criteria_calls": 500, "falsy_results": 300, "truthy_results": 300, "atom_count_changes": 100, "cell_changes": 100, "roundtrips": 12, "attribute_accesses_logged": 2000, "bare_criteria_verdicts_checked": 300}
 SHARD_TIMEOUT = {"quick": 900, "thorough": 3000}
 
 PROTOCOL = {"__call__", "evaluate", "on_atoms_changed", "on_cell_changed", "to_dict", "from_dict"}
@@ -73,7 +73,11 @@ class UserMove(Logged):
 
     def __call__(self, context):
         self.calls += 1
+        self.changed = False
         atoms = context.atoms
+        if not RESULTS[self.result] if not isinstance(RESULTS[self.result], np.ndarray) else False:
+            return RESULTS[self.result]  # a move that reports failure leaves the system as it was
+        self.changed = self.behaviour in ("cell", "shear") or (self.behaviour == "displace" and len(atoms) > 0)
         if self.behaviour == "displace" and len(atoms):
             atoms.positions[int(context.rng.integers(len(atoms)))] += context.rng.uniform(-0.2, 0.2, 3)
         elif self.behaviour == "cell":
@@ -110,14 +114,22 @@ class UserCriteria(Logged):
         self.k = 0
         self.calls = 0
 
+    # what the criteria hands back: protocol says bool; truthy / falsy values of other types must be routed alike
+    ACCEPT = [True, 1, np.True_, "yes"]
+    REJECT = [False, 0, np.False_, None, 0.0]
+
     def evaluate(self, context):
         self.calls += 1
         self.k += 1
         if self.schedule == "accept":
-            return True
-        if self.schedule == "reject":
-            return False
-        return self.k % 2 == 1
+            ok = True
+        elif self.schedule == "reject":
+            ok = False
+        else:
+            ok = self.k % 2 == 1
+        pool = self.ACCEPT if ok else self.REJECT
+        self.last = pool[(self.k + self.tag) % len(pool)]
+        return self.last
 
     def to_dict(self):
         return {"name": "UserCriteria", "kwargs": {"schedule": self.schedule, "tag": self.tag}}
@@ -213,7 +225,7 @@ def run(spec):
         st = {"calls": {u[0]: 0 for u in users}, "crit_calls": {u[0]: 0 for u in users}}
 
         def snap(m):
-            return {"n": len(m.atoms), "cell": m.atoms.cell.array.copy(), "notes": {u[0]: (len(u[1].atoms_notes), len(u[1].cell_notes)) for u in users}, "calls": {u[0]: (u[1].calls, getattr(u[2], "calls", None)) for u in users}}
+            return {"n": len(m.atoms), "cell": m.atoms.cell.array.copy(), "pos": m.atoms.positions.copy(), "notes": {u[0]: (len(u[1].atoms_notes), len(u[1].cell_notes)) for u in users}, "calls": {u[0]: (u[1].calls, getattr(u[2], "calls", None)) for u in users}}
 
         def on_trial(t):
             rec.evaluations += 1
@@ -232,8 +244,17 @@ def run(spec):
                 if isinstance(crit, UserCriteria):
                     ccalls = t.after["calls"][name][1] - t.before["calls"][name][1]
                     rec.count("bare_criteria_calls", ccalls)
+                # a falsy verdict of the bare criteria must undo the trial, a truthy one must keep it (drivers that
+                # remember positions; the base driver's context does not)
+                if truthy and isinstance(crit, UserCriteria) and ccalls == 1 and driver != "MonteCarlo":
+                    restored = t.before["n"] == t.after["n"] and np.array_equal(t.before["pos"], t.after["pos"]) and np.array_equal(t.before["cell"], t.after["cell"])
+                    rec.count("bare_criteria_verdicts_checked")
+                    if not crit.last and not restored and getattr(mv, "changed", False):
+                        rec.viol(f"C20/falsy-criteria-result-not-reverted/{type(crit.last).__name__}", f"the bare criteria returned {crit.last!r} (falsy) but the trial was not undone", wit)
+                    if crit.last and restored and getattr(mv, "changed", False):
+                        rec.viol(f"C20/truthy-criteria-result-reverted/{type(crit.last).__name__}", f"the bare criteria returned {crit.last!r} (truthy) but the trial was undone", wit)
                 if truthy:
-                    if t.verdict is None:
+                    if t.verdict is None and not (isinstance(crit, UserCriteria) and ccalls == 1):
                         rec.viol(f"C20/truthy-result-not-sent-to-criteria/{res}", f"move returned {RESULTS[res]!r} (truthy) but the trial was recorded as not attempted", wit)
                     elif ccalls is not None and ccalls != 1:
                         rec.viol(f"C20/truthy-result-not-sent-to-criteria/{res}", f"move returned {RESULTS[res]!r} (truthy) but the criteria was evaluated {ccalls} times", wit)
